@@ -577,109 +577,59 @@ func (c *Ctx) ruleR16b(rule string) {
 		}
 		return nil
 	}
-	nret := 0
-	for _, r := range ssax.Returns(lookup) {
-		p := fvOf(ssax.Strip(r.Results[0]))
-		even := -1
-		for _, cd := range ssax.DominatingConds(r.Block()) {
-			op, x, y, isCmp := ssax.CmpOp(cd.Val)
-			if !isCmp {
-				continue
-			}
-			if !cd.Truth {
-				op = ssax.Negate(op)
-			}
-			if bo, ok := x.(*ssa.BinOp); ok && bo.Op == token.REM && bo.X == ssa.Value(lookup.Params[0]) {
-				m, _ := ssax.ConstInt(bo.Y)
-				k, isK := ssax.ConstInt(y)
-				if m == 2 && isK {
-					if op == token.EQL && k == 0 || op == token.NEQ && k == 1 {
-						even = 1
-					}
-					if op == token.EQL && k == 1 || op == token.NEQ && k == 0 {
-						even = 0
-					}
-				}
+	// lookup: folded for i = 0..7 — the value parser at even indexes, the separator at odd ones
+	for i := int64(0); i < 8 && okLookup; i++ {
+		ret, _, took := foldToReturn(lookup, []bval{{known: true, i: i}}, nil, 0)
+		if ret == nil || len(ret.Results) != 1 {
+			c.R.Undecided(rule, c.name(lookup)+" shape", c.name(lookup), c.P.Pos(lookup.Pos()), "the SepBy lookup is not a pure function of the index")
+			return
+		}
+		rv := ssax.Strip(ret.Results[0])
+		if ph, ok := rv.(*ssa.Phi); ok {
+			if t, ok := took[ph]; ok {
+				rv = ssax.Strip(t)
 			}
 		}
-		nret++
-		if !(even == 1 && p == valueP || even == 0 && p == sepP) {
+		p := fvOf(rv)
+		if !(i%2 == 0 && p == valueP || i%2 == 1 && p == sepP) {
 			okLookup = false
 		}
 	}
-	if okLookup && nret == 2 {
-		c.R.Hold(rule, c.name(lookup), "even index -> value parser, odd index -> separator")
+	if okLookup {
+		c.R.Hold(rule, c.name(lookup), "even index -> value parser, odd index -> separator (folded for i = 0..7)")
 	} else {
 		c.R.Violation(rule, c.name(lookup)+" parity", c.name(lookup), c.P.Pos(lookup.Pos()), "the SepBy lookup does not alternate value and separator parsers by index parity: the Array/Object interpreters pick every second child and would read separators as values")
 	}
-	// lenCheck truth table
-	rets := ssax.Returns(lenCheck)
-	if len(rets) != 1 {
-		c.R.Undecided(rule, c.name(lenCheck)+" shape", c.name(lenCheck), c.P.Pos(lenCheck.Pos()), "length predicate has several returns")
-		return
-	}
-	L := lenCheck.Params[0]
+	// lenCheck: folded over len = 0..9 and both values of the allow-empty flag
 	bad := ""
-	// abstract evaluation over (len == 0?, len odd?, allowEmpty?) — len==0 implies even
-	for _, zero := range []bool{true, false} {
-		for _, odd := range []bool{true, false} {
-			if zero && odd {
-				continue
+	for n := int64(0); n < 10 && bad == ""; n++ {
+		for _, allow := range []bool{true, false} {
+			capt := benv{}
+			for _, fv := range lenCheck.FreeVars {
+				if pt, ok := fv.Type().Underlying().(*types.Pointer); ok {
+					if bt, ok := pt.Elem().Underlying().(*types.Basic); ok && bt.Kind() == types.Bool {
+						capt[fv] = bval{known: true, isB: true, b: allow}
+					}
+				}
 			}
-			for _, allow := range []bool{true, false} {
-				got, ok := evalBool(rets[0].Results[0], func(v ssa.Value) (bool, bool) {
-					if _, isFV := freeVarLoad(v); isFV {
-						return allow, true
-					}
-					op, x, y, isCmp := ssax.CmpOp(v)
-					if !isCmp {
-						return false, false
-					}
-					k, isK := ssax.ConstInt(y)
-					if !isK {
-						return false, false
-					}
-					if x == ssa.Value(L) {
-						switch {
-						case k == 0 && op == token.EQL:
-							return zero, true
-						case k == 0 && op == token.NEQ, k == 0 && op == token.GTR, k == 1 && op == token.GEQ:
-							return !zero, true
-						}
-						return false, false
-					}
-					if bo, isB := x.(*ssa.BinOp); isB && bo.Op == token.REM && bo.X == ssa.Value(L) {
-						if m, _ := ssax.ConstInt(bo.Y); m == 2 {
-							switch {
-							case k == 1 && op == token.EQL, k == 0 && op == token.NEQ:
-								return odd, true
-							case k == 0 && op == token.EQL, k == 1 && op == token.NEQ:
-								return !odd, true
-							}
-						}
-					}
-					return false, false
-				}, 0)
-				if !ok {
-					c.R.Undecided(rule, c.name(lenCheck)+" atoms", c.name(lenCheck), c.P.Pos(lenCheck.Pos()), "length predicate uses comparisons outside {len == 0, len % 2, allowEmpty}")
-					return
-				}
-				want := zero && allow || odd
-				if got != want {
-					bad = fmt.Sprintf("for len==0:%v, len odd:%v, allowEmpty:%v the predicate gives %v, the specification %v", zero, odd, allow, got, want)
-				}
+			got := foldFuncEnv(lenCheck, []bval{{known: true, i: n}}, capt, 0)
+			if !got.known || !got.isB {
+				c.R.Undecided(rule, c.name(lenCheck)+" atoms", c.name(lenCheck), c.P.Pos(lenCheck.Pos()), "the length predicate is not a pure function of the length and the allow-empty flag")
+				return
+			}
+			want := n == 0 && allow || n%2 == 1
+			if got.b != want {
+				bad = fmt.Sprintf("for len=%d, allowEmpty=%v the predicate gives %v, the specification %v", n, allow, got.b, want)
 			}
 		}
 	}
 	if bad == "" {
-		c.R.Hold(rule, c.name(lenCheck), "accepts exactly (len == 0 and allowEmpty) or odd len")
+		c.R.Hold(rule, c.name(lenCheck), "accepts exactly (len == 0 and allowEmpty) or odd len (folded for len = 0..9)")
 	} else {
 		c.R.Violation(rule, c.name(lenCheck)+" length predicate", c.name(lenCheck), c.P.Pos(lenCheck.Pos()), "SepBy's length predicate is not '(len == 0 && allowEmpty) || len odd': "+bad+" — chains ending in a separator (e.g. [1,]) are accepted and evaluate to a value")
 	}
 }
 
-// evalBool evaluates a boolean SSA expression given a valuation of its atoms (phis are resolved through the
-// branch conditions that select their edges).
 func evalBool(v ssa.Value, atom func(ssa.Value) (bool, bool), depth int) (bool, bool) {
 	if depth > 20 {
 		return false, false
